@@ -252,11 +252,21 @@ func powerLossCampaign(p Prog, all bool, variants []int) (crashStats, error) {
 			cs.midOp++
 		}
 		label := fmt.Sprintf("power loss at hook %d/%d (%s; image variant %d; acked %d, issued %d)", n, total, site, variant, acked, issued)
-		if os.Getenv("VERIF_KEEP") != "" {
+		dbg := os.Getenv("VERIF_C10_DEBUG") // development aid: keep the artefacts of a failing loss point
+		if os.Getenv("VERIF_KEEP") != "" || dbg != "" {
 			exec.Command("cp", "-r", img, img+".orig").Run()
 		}
 		if _, err := verifyRecovered(p, img, acked, issued, label); err != nil {
+			if dbg != "" {
+				dst := filepath.Join(dbg, fmt.Sprintf("fail-%d-k%d", os.Getpid(), n))
+				os.MkdirAll(dst, 0o755)
+				exec.Command("cp", "-r", img+".orig", img+".shadow", c.AckPath, dry.AckPath, dst).Run()
+				os.WriteFile(filepath.Join(dst, "error.txt"), []byte(err.Error()), 0o644)
+			}
 			return cs, err
+		}
+		if dbg != "" {
+			os.RemoveAll(img + ".orig")
 		}
 		os.RemoveAll(dir)
 		os.RemoveAll(img)
